@@ -573,7 +573,7 @@ fn one_string(ty: Ty, s: &[u8], known: &Known, cnt: &mut [u64; 4]) -> Result<(),
     if let Some(w) = boundary_witness(ty, s, verdict, &pos) {
         // the neighbour really is on the other side
         let rw = real(ty, &w)?;
-        ensure!((rw == Real::Accept) != verdict, sig(ty, if verdict { "accepted_but_documented_illegal" } else { "rejected_but_documented_legal" }), "{}::new({}) = {rw:?}, its neighbour {} has the same verdict; the documented rules separate them", ty.name(), esc(&w), esc(s));
+        ensure!((rw == Real::Accept) != verdict, sig(ty, if rw == Real::Accept { "accepted_but_documented_illegal" } else { "rejected_but_documented_legal" }), "{}::new({}) = {rw:?}; by the documented rules it is on the other side of the boundary than its neighbour {}", ty.name(), esc(&w), esc(s));
         cnt[2] += 1;
     }
     Ok(())
@@ -582,10 +582,10 @@ fn one_string(ty: Ty, s: &[u8], known: &Known, cnt: &mut [u64; 4]) -> Result<(),
 pub fn exhaustive(ctx: &mut Ctx, known: &Known) {
     let part = "validate.exhaustive";
     let quick = ctx.quick();
-    let max_len = move |t: Ty| if !quick || matches!(t, Ty::FileName | Ty::Path) { 3 } else { 2 };
+    let max_len = move |t: Ty| if !quick || matches!(t, Ty::FileName | Ty::Path | Ty::FilePath) { 3 } else { 2 };
     let counters = RefCell::new(Counters::default());
     let dim = if quick {
-        "all byte strings over 0..=255 of length 0..=3 for FileName and Path, 0..=2 for the other eight types (one case = the 256 strings sharing a prefix)"
+        "all byte strings over 0..=255 of length 0..=3 for FileName, Path and FilePath, 0..=2 for the other seven types (one case = the 256 strings sharing a prefix)"
     } else {
         "all byte strings over 0..=255 of length 0..=3 for all ten types (one case = the 256 strings sharing a prefix)"
     };
